@@ -759,6 +759,22 @@ def _const_table(e: ast.AST, local_defs: Dict[str, ast.AST], module_consts: Dict
             return isinstance(x, ast.Constant) or (isinstance(x, (ast.Tuple, ast.List)) and all(const(y) for y in x.elts))
         if all(const(x) for x in e.elts):
             return list(e.elts)
+
+        # a table of rows whose cells are side-effect free expressions (`(_dashed_edge, sorted(getattr(node, "used_by", [])))`):
+        # evaluating a cell where it is used instead of when the table is built gives the same value as long as the loop body
+        # does not rebind what the cell reads (checked by the caller)
+        def pure_cell(x) -> bool:
+            if isinstance(x, (ast.Constant, ast.Name)):
+                return True
+            if isinstance(x, ast.Attribute):
+                return pure_cell(x.value)
+            if isinstance(x, (ast.Tuple, ast.List)):
+                return all(pure_cell(y) for y in x.elts)
+            if isinstance(x, ast.Call) and isinstance(x.func, ast.Name) and x.func.id in (PURE_CALLS | {"sorted", "list", "tuple", "reversed"}):
+                return all(pure_cell(a) for a in x.args) and all(pure_cell(k.value) for k in x.keywords)
+            return False
+        if all(isinstance(x, (ast.Tuple, ast.List)) and x.elts and all(pure_cell(y) for y in x.elts) for x in e.elts):
+            return list(e.elts)
     return None
 
 
@@ -843,6 +859,10 @@ def unroll_constant_loops(fn: ast.FunctionDef, module_consts: Dict[str, ast.AST]
         # the loop variables must not be assigned in the body
         stored = {n.id for st in loop.body for n in ast.walk(st) if isinstance(n, ast.Name) and isinstance(n.ctx, ast.Store)}
         if stored & set().union(*[set(r) for r in rows]):
+            return None
+        # cells that are expressions: nothing they read may be rebound in the body
+        read = {n.id for r in rows for v in r.values() for n in ast.walk(v) if isinstance(n, ast.Name)}
+        if stored & read:
             return None
         out: List[ast.stmt] = []
         for r in rows:
